@@ -37,7 +37,10 @@ ASCII_KIND = {  # the predicate each POSIX class is built from (as documented by
 
 
 def eval_closure(F, clo, nargs=1):
-    """Enumerate the paths of a closure body.  Returns list of (conds, result term)."""
+    """Enumerate the paths of a closure body.  Returns list of (conds, result term).
+    A function item used as predicate (`MatchFn::new(char::is_numeric)`) is one atom."""
+    if clo[0] == "fn":
+        return [([], ("app", clo[2] or clo[1], (("sym", "ch"),)))]
     cfn = F.fns[clo[1]]
     ex = S.Engine(cfn, F, BaseModel(), cut_edges=cfn.back_edges(), inline=lambda name: re.search(INLINE, name) is not None or "{closure" in name, max_depth=8)
     p = S.Path()
@@ -69,6 +72,14 @@ def atom_label(t, labeller):
     if t[0] == "app":
         nm = M.short_name(t[1])
         if re.search(r"ops::Fn<.*>>::call$", t[1]) or nm.endswith("Fn::call") or nm == "call":
+            callee = t[2][0]
+            n_ = 0
+            while callee[0] in ("ref", "boxptr") and n_ < 6:
+                callee = (callee[3] if len(callee) > 3 else callee[1][1]) if callee[0] == "ref" else callee[1]
+                n_ += 1
+            if callee[0] == "fn":
+                m = re.search(r"([A-Za-z_0-9]+)$", callee[2] or callee[1])
+                return "%s(ch)" % (m.group(1) if m else "fn")
             return "P[%s]" % val_label(t[2][0], labeller)
         m = re.search(r"([A-Za-z_0-9]+)$", t[1])
         return "%s(%s)" % (m.group(1) if m else nm, ",".join(val_label(x, labeller) for x in t[2]))
@@ -382,7 +393,7 @@ def analyze(ctx, want):
         kind = dict((dv, n) for n, dv in kd[-1][0][2]).get(kd[-1][1])
         neg = ng[-1][1] if ng else None
         clo = unwrap_ok(r)
-        if clo[0] != "closure":
+        if clo[0] not in ("closure", "fn"):
             ob("C08.d", "perl:%s:negated=%s" % (kind, neg), False, "returns %s" % S.vstr(r)[:80], fn.loc())
             continue
         atoms, table = truth_table(eval_closure(F, clo), lambda v: None)
